@@ -97,7 +97,6 @@ def nontrivial(case, res):
 def probes(case, res):
     st = res.sim.stats
     p = {
-        'cas_lost': st.get('cas_lost', 0),
         'ref_exact': int(bool(res.extra.get('ref_exact'))),
         'wf_error': int(any(w['state'] == 'ERROR'
                             for w in res.snap['wf'].values())),
@@ -105,7 +104,6 @@ def probes(case, res):
             t['state'] == 'ERROR' and 'Failed by tasks' in
             (t['state_info'] or '') for t in res.snap['task'].values())),
         'two_engines': int(case['config'].get('engines', 1) > 1),
-        'lock_waits': st.get('lock_wait:tx', 0),
         'row_order_applied': st.get('row_order_applied', 0),
     }
     return p
